@@ -81,11 +81,12 @@ func runWcont(toks []string) (string, string) {
 	gowarc.VerifSetNow(fixedNow)
 	var callbacks []cbEntry
 	infoCount := 0
+	sm := &splitMarshaler{inner: gowarc.NewMarshaler(), conts: conts, recs: recs}
 	opts := []gowarc.WarcFileWriterOption{
 		gowarc.WithMaxFileSize(max), gowarc.WithCompression(compress), gowarc.WithExpectedCompressionRatio(1),
 		gowarc.WithFileNameGenerator(&gowarc.PatternNameGenerator{Directory: out, Prefix: "v", Pattern: "%{prefix}s-%04{serial}d.%{ext}s", Extension: "warc"}),
 		gowarc.WithMaxConcurrentWriters(1),
-		gowarc.WithMarshaler(&splitMarshaler{inner: gowarc.NewMarshaler(), conts: conts, recs: recs}),
+		gowarc.WithMarshaler(sm),
 		gowarc.WithAfterFileCreationHook(func(name string, size int64, infoId string) error {
 			callbacks = append(callbacks, cbEntry{name, size, infoId})
 			return nil
@@ -94,6 +95,9 @@ func runWcont(toks []string) (string, string) {
 			infoCount++
 			return infoID(infoCount), nil
 		})),
+	}
+	if len(toks)%3 == 0 {
+		opts = append(opts, gowarc.WithSegmentation()) // the marshaler is told how large a record may get
 	}
 	if info {
 		opts = append(opts, gowarc.WithWarcInfoFunc(func(rb gowarc.WarcRecordBuilder) error {
@@ -107,10 +111,35 @@ func runWcont(toks []string) (string, string) {
 		id   string
 	}
 	var acks []ack
-	for _, rec := range recs {
-		for _, rs := range w.Write(rec) {
+	// a record the writer cannot place (its declared length is no number): it fails, its neighbours do not
+	var bad gowarc.WarcRecord
+	if max > 0 && len(toks)%2 == 0 {
+		rb := gowarc.NewRecordBuilder(gowarc.Resource, gowarc.WithNoValidation(), gowarc.WithAddMissingContentLength(false), gowarc.WithBufferTmpDir(tmp))
+		rb.AddWarcHeader("WARC-Record-ID", "<urn:uuid:bbbbbbbb-0000-0000-0000-000000000000>")
+		rb.AddWarcHeader("WARC-Date", "2021-05-06T07:08:09Z")
+		rb.AddWarcHeader("Content-Type", "text/plain")
+		rb.AddWarcHeader("Content-Length", "x1")
+		rb.WriteString("b")
+		bad, _, _ = rb.Build()
+		if bad != nil {
+			defer bad.Close()
+		}
+	}
+	for i := 0; i < len(recs); i++ {
+		batch := []gowarc.WarcRecord{recs[i]}
+		if bad != nil && i+1 < len(recs) && i%2 == 0 {
+			batch = []gowarc.WarcRecord{recs[i], bad, recs[i+1]}
+			i++
+		}
+		resps := w.Write(batch...)
+		if len(resps) != len(batch) {
+			return "", fmt.Sprintf("FAIL:lost-or-duplicated+wrong-position:%d responses for a batch of %d", len(resps), len(batch))
+		}
+		for bi, rs := range resps {
 			if rs.Err == nil {
-				acks = append(acks, ack{rs, rec.WarcHeader().Get("WARC-Record-ID")})
+				acks = append(acks, ack{rs, batch[bi].WarcHeader().Get("WARC-Record-ID")})
+			} else if batch[bi] != bad {
+				return "", "FAIL:lost-or-duplicated+wrong-position:a good record next to a failing one was not written: " + rs.Err.Error()
 			}
 		}
 	}
@@ -147,6 +176,10 @@ func runWcont(toks []string) (string, string) {
 		rd.Close()
 	}
 	observation := strings.Join(obs, ",")
+	if sm.warcinfoMax > 0 {
+		// every file begins with exactly one, whole, warcinfo record: the writer never offers it for segmentation
+		return observation, fmt.Sprintf("FAIL:warcinfo-rule:the warcinfo record was handed to the marshaler with a size limit of %d (it would be split)", sm.warcinfoMax)
+	}
 	if len(callbacks) != len(files) {
 		return observation, fmt.Sprintf("FAIL:callback-args:%d callbacks for %d files", len(callbacks), len(files))
 	}
@@ -161,7 +194,7 @@ func runWcont(toks []string) (string, string) {
 	}
 	for _, a := range acks {
 		if got := recordIDAt(files[a.resp.FileName], a.resp.FileOffset); got != a.id {
-			return observation, fmt.Sprintf("FAIL:wrong-position:the record acknowledged at %s@%d is %s there, %s was written", a.resp.FileName, a.resp.FileOffset, got, a.id)
+			return observation, fmt.Sprintf("FAIL:misplaced+wrong-position:the record acknowledged at %s@%d is %s there, %s was written", a.resp.FileName, a.resp.FileOffset, got, a.id)
 		}
 	}
 	return observation, "OK"
